@@ -19,7 +19,7 @@ RULE = ("case = one real-time history (each <= ~0.6 s) on a real RunEngine with 
         "SuspendBoolLow / SuspendFloor / SuspendCeil) on a fake signal, driven by real helper threads: shapes {tripped "
         "before the call then released by a thread; tripped before the call then REMOVED by a thread; tripped and released "
         "during the call; removed, then the signal changes while a plan runs; removed twice; installed/removed in-plan by "
-        "suspend_wrapper; tripped, removed before the call}, with seeded delays; oracles on the shared log: tripped at "
+        "suspend_wrapper; tripped, removed before the call; held at the start gate, paused, the suspender removed while paused, resumed; two tripped suspenders with identical justification text released at different times; a suspender installed by the plan (suspend_wrapper) while its signal is already out of range}, with seeded delays; oracles on the shared log: tripped at "
         "call start => the first message is wait_for and no plan message precedes the begin of the releasing put / "
         "removal; removal while suspended => the wait ends (a quiescent loop with the call outstanding is 'stuck'); after "
         "removal the suspender reacts to nothing (no suspension starts, no callback left on the signal); a second removal "
@@ -27,7 +27,8 @@ RULE = ("case = one real-time history (each <= ~0.6 s) on a real RunEngine with 
 ASSUMPTIONS = ["real time with delays of 50-200 ms: ordering verdicts come from the shared log, never from wall-clock stamps",
                "wall-clock watchdog (20 s) => inconclusive"]
 REQUIRED_COUNTERS = {"histories": 60, "gated_starts": 15, "removals_while_suspended": 10, "post_removal_changes": 10,
-                     "double_removals": 10}
+                     "double_removals": 10, "removals_while_paused": 6, "two_gate_starts": 6,
+                     "inplan_install_tripped": 6}
 MANIFEST = {
     "technique": "shared-log ordering oracle over real-thread histories with real suspender classes on a fake signal, plus "
                  "loop-quiescence stuck detection",
@@ -38,7 +39,8 @@ MANIFEST = {
     "note": "Real time (short); few hundred histories; thread timing varied by seeded delays.",
     "design_ref": "7 (C31)",
 }
-SHAPES = ["gate-release", "gate-remove", "trip-during", "removed-then-change", "double-remove", "wrapper", "trip-remove-before"]
+SHAPES = ["gate-release", "gate-remove", "trip-during", "removed-then-change", "double-remove", "wrapper", "trip-remove-before",
+          "gate-pause-remove-resume", "two-gates", "wrapper-already-tripped"]
 SHARD_TIMEOUT = {"quick": 900, "thorough": 3600}
 
 
@@ -47,7 +49,7 @@ def worker_init(tier, seed):
 
 
 def gen_cases(tier, seed):
-    n = 84 if tier == "quick" else 1200
+    n = 120 if tier == "quick" else 1500
     return [{"start": s, "count": 3, "seed": seed} for s in range(0, n, 3)]
 
 
@@ -81,7 +83,8 @@ def run_case(case):
         d2 = d1 + rng.choice([0.05, 0.15])
         problems = []
         counters = {"histories": 1, "gated_starts": 0, "removals_while_suspended": 0, "post_removal_changes": 0,
-                    "double_removals": 0}
+                    "double_removals": 0, "removals_while_paused": 0, "two_gate_starts": 0,
+                    "inplan_install_tripped": 0}
         threads = []
 
         def later(delay, label, fn):
@@ -150,6 +153,44 @@ def run_case(case):
                 later(d1, "trip", lambda: sig.put(bad))
                 later(d2, "release", lambda: sig.put(good))
                 res = h.call("RE", RE, bpp.suspend_wrapper(plan(4, 0.1), [sus]))
+            elif shape == "wrapper-already-tripped":
+                # the plan itself installs a suspender whose signal is already out of range: it trips on installation
+                sig.put(bad)
+                later(d2, "release", lambda: sig.put(good))
+                res = h.call("RE", RE, bpp.suspend_wrapper(plan(3, 0.0), [sus]))
+                counters["inplan_install_tripped"] = 1
+            elif shape == "gate-pause-remove-resume":
+                # held at the start gate, paused during the hold, the suspender removed while paused, then resumed
+                RE.install_suspender(sus)
+                sig.put(bad)
+                later(d1, "pause", RE.request_pause)
+                r0 = h.call("RE", RE, plan())
+                for t in threads:
+                    t.join(3)
+                if RE.state != "paused":
+                    problems.append(("harness-pause-did-not-land", f"state {RE.state}, call {r0[0]}"))
+                else:
+                    h.log.append(("helper", "remove", "begin"))
+                    RE.remove_suspender(sus)
+                    h.log.append(("helper", "remove", "end"))
+                    counters["removals_while_suspended"] = 1
+                    counters["removals_while_paused"] = 1
+                    res = h.call("resume", RE.resume)
+            elif shape == "two-gates":
+                # two tripped suspenders with the SAME justification text, released at different times
+                sig2 = Sig("sig", h.log, value=0)
+                _, sus2, _, _ = mk_suspender(rng_for(case["seed"], "C31", i), sig2)
+                sig2.value = good
+                RE.install_suspender(sus)
+                RE.install_suspender(sus2)
+                sig.put(bad)
+                sig2.put(bad)
+                first, second = (sig, sig2) if rng.random() < 0.5 else (sig2, sig)
+                later(d1, "release-first", lambda: first.put(good))
+                later(d2 + 0.1, "release", lambda: second.put(good))
+                res = h.call("RE", RE, plan())
+                counters["gated_starts"] = 1
+                counters["two_gate_starts"] = 1
             else:  # trip-remove-before
                 RE.install_suspender(sus)
                 sig.put(bad)
@@ -171,10 +212,32 @@ def run_case(case):
             problems.append((f"call-failed:{type(res[1]).__name__}:{shape}", repr(res[1])[:200]))
         msgs = [(j, e[1]) for j, e in enumerate(log) if e[0] == "msg"]
         plan_msgs = [(j, m) for j, m in msgs if m.command == "null" and m.args[:1] == ("plan",)]
-        if shape in ("gate-release", "gate-remove") and not problems:
+        if shape == "wrapper-already-tripped" and not problems:
+            rel = next((j for j, e in enumerate(log) if e[0] == "helper" and e[1] == "release" and e[2] == "begin"), None)
+            inst = next((j for j, m in msgs if m.command == "install_suspender"), None)
+            if rel is not None and inst is not None and inst < rel:
+                # (the request takes effect a few messages later, like any trip during a run: judged from _start_suspender)
+                started = [j for j, m in msgs if m.command == "_start_suspender"]
+                if not started:
+                    problems.append(("installed-tripped-suspender-never-suspended", f"{[m.command for _, m in msgs][:8]}"))
+                else:
+                    early = [j for j, m in plan_msgs if started[0] < j < rel]
+                    if early:
+                        problems.append(("plan-message-while-suspended", f"plan message at log {early[0]}, release began at {rel}"))
+            if len(plan_msgs) < 3:
+                problems.append(("plan-incomplete-after-suspension", f"{len(plan_msgs)} plan messages"))
+            if sig.subs or RE.suspenders:
+                problems.append(("suspend_wrapper-left-suspender-installed", f"{len(sig.subs)} subs"))
+        if shape == "gate-pause-remove-resume" and not problems:
+            if len(plan_msgs) != 3:
+                problems.append(("plan-did-not-run-after-removal-while-paused", f"{len(plan_msgs)} plan messages"))
+            begin = next((j for j, e in enumerate(log) if e[0] == "helper" and e[1] == "remove" and e[2] == "begin"), None)
+            if plan_msgs and begin is not None and plan_msgs[0][0] < begin:
+                problems.append(("plan-ran-before-remove", f"first plan message at log {plan_msgs[0][0]}, removal at {begin}"))
+        if shape in ("gate-release", "gate-remove", "two-gates") and not problems:
             if not msgs or msgs[0][1].command != "wait_for":
                 problems.append(("tripped-suspender-did-not-gate-the-start", f"first message: {msgs[0][1].command if msgs else None}"))
-            lab = "release" if shape == "gate-release" else "remove"
+            lab = "remove" if shape == "gate-remove" else "release"   # (two-gates: 'release' is the LATER of the two)
             begin = next((j for j, e in enumerate(log) if e[0] == "helper" and e[1] == lab and e[2] == "begin"), None)
             if begin is None:
                 problems.append(("harness-helper-never-ran", shape))
